@@ -304,6 +304,21 @@ pub fn gen_tree(rng: &mut Rng) -> (Tree, Vec<String>) {
             }
         }
     }
+    // links to the directory they live in (and to its parent): with links
+    // followed each is a loop, reported as one error entry and not descended
+    if rng.chance(1, 4) {
+        let all_dirs: Vec<String> =
+            t.nodes.iter().filter(|n| n.kind == Kind::Dir).map(|n| n.path.clone()).collect();
+        for i in 0..rng.range(1, 2) {
+            if let Some(d) = all_dirs.get(rng.below(all_dirs.len().max(1))) {
+                let p = format!("{}/self{}", d, i);
+                let target = if rng.bool() { ".".to_string() } else { format!("../{}", d.rsplit('/').next().unwrap_or(d)) };
+                if !t.nodes.iter().any(|n| n.path == p) {
+                    t.nodes.push(Node { path: p, kind: Kind::Link(target) });
+                }
+            }
+        }
+    }
     // dangling links: error entries in the middle of a directory listing
     if rng.chance(1, 3) {
         let all_dirs: Vec<String> =
@@ -345,7 +360,12 @@ fn err_key(base: &Path, e: &ignore::Error) -> String {
     match msg.find(&*b) {
         Some(i) => {
             let rest = &msg[i + b.len()..];
-            let end = rest.find(':').unwrap_or(rest.len());
+            let end = rest
+                .find(':')
+                .into_iter()
+                .chain(rest.find(" points to"))
+                .min()
+                .unwrap_or(rest.len());
             format!("<error>{}", rest[..end].trim_start_matches('/'))
         }
         None => format!("<error>{}", msg),
